@@ -493,7 +493,8 @@ func (e *Executor) GetTask(call *Call) (*ast.Task, error) {
 	// If we found no tasks
 	if len(aliasedTasks) == 0 {
 		didYouMean := ""
-		if e.fuzzyModel != nil {
+		// (a suggestion for a very long name would take very long to compute)
+		if e.fuzzyModel != nil && len(call.Task) <= 64 {
 			didYouMean = e.fuzzyModel.SpellCheck(call.Task)
 		}
 		return nil, &errors.TaskNotFoundError{
